@@ -27,12 +27,33 @@ def load_corpus():
 
 def apply_edit(root, m):
     """m['edits'] = [(relpath, old, new, count)] ; returns False if an anchor is missing."""
+    import re
     for rel, old, new, *rest in m["edits"]:
         path = os.path.join(root, rel)
         if not os.path.exists(path):
             return False
         with open(path, encoding="utf-8") as fh:
             src = fh.read()
+        if rest and rest[0] == "re":
+            # regex edit applied to every line that is not an import line
+            lines = src.split("\n")
+            n = 0
+            for i, line in enumerate(lines):
+                if line.startswith(("from ", "import ")) or line.strip().startswith(("from .", "from tpmstream")):
+                    continue
+                new_line, k = re.subn(old, new, line)
+                lines[i] = new_line
+                n += k
+            if n == 0:
+                return False
+            src = "\n".join(lines)
+            try:
+                compile(src, path, "exec")
+            except SyntaxError:
+                raise RuntimeError(f"mutant {m['id']} does not compile")
+            with open(path, "w", encoding="utf-8") as fh:
+                fh.write(src)
+            continue
         want = rest[0] if rest else 1
         if src.count(old) < 1 or (want and src.count(old) != want):
             return False
